@@ -34,6 +34,9 @@ type Universe struct {
 	Routes    []Route           `json:"routes"`
 	Markers   []string          `json:"markers"`
 	Notes     []string          `json:"notes,omitempty"`
+	// EmptyRefs: known-finding slice — some references to the referrer's own resource root are
+	// spelled as the empty string (RFC 3986: the base URI itself).
+	EmptyRefs bool `json:"empty_refs,omitempty"`
 }
 
 // Route is a path of property names from the root; following it ends at the node whose
@@ -85,6 +88,7 @@ type gen struct {
 	usedURI map[string]bool
 	hasBase bool
 	notes   []string
+	empty   bool // known-finding slice: spell some self references as ""
 }
 
 func (g *gen) n(k int, l string) int { return rapid.IntRange(0, k-1).Draw(g.t, l) }
@@ -95,6 +99,7 @@ var anchorNames = []string{"foo", "bar", "A1"}
 func Gen(t *rapid.T) *Universe {
 	g := &gen{t: t, usedURI: map[string]bool{}}
 	g.hasBase = g.n(4, "hasbase") > 0
+	g.empty = g.n(20, "emptyrefs") == 0
 	loader := g.n(5, "loader") > 0
 	nRemote := 0
 	if loader {
@@ -127,7 +132,7 @@ func Gen(t *rapid.T) *Universe {
 	for _, n := range g.nodes {
 		g.chooseRefs(n)
 	}
-	u := &Universe{BaseURI: rootRetrieval, Docs: map[string]*jv.V{}, Alias: map[string]string{}, LoaderNil: !loader}
+	u := &Universe{BaseURI: rootRetrieval, Docs: map[string]*jv.V{}, Alias: map[string]string{}, LoaderNil: !loader, EmptyRefs: g.empty}
 	for _, d := range g.docs {
 		v := g.render(d.root)
 		if d.isRoot {
@@ -453,6 +458,9 @@ func (g *gen) chooseRefs(rf *node) {
 		if text == "" {
 			text = "#"
 			kind = "fragment-only"
+		}
+		if g.empty && tg == rf.resource && rf.resource.base.IsAbs() && !strings.Contains(id[0], "#") && g.n(2, "emptyref") == 0 {
+			text, kind = "", "empty-reference"
 		}
 		rf.refs = append(rf.refs, &ref{name: fmt.Sprintf("q%d", i), target: tg, text: text, kind: id[1] + "/" + kind})
 	}
